@@ -1,6 +1,6 @@
 From Coq Require Import List ZArith String Ascii Bool NArith Lia.
 Import ListNotations.
-From Bexpr Require Import Base Ast Unicode Peg Typing Actions GoGrammar Sem Term Lex Lex2 Lex3 Calc Calc2 Skel Atoms StrLit.
+From Bexpr Require Import Base Ast Unicode Peg Typing Actions GoGrammar Sem Term Lex Lex2 Lex3 Calc Calc2 Skel Atoms StrLit RawLit.
 Open Scope string_scope.
 
 (* C07, parser half: a selector whose parts are spelled, each independently, as .name, .digits or ["literal"]
@@ -79,13 +79,23 @@ Proof.
     rewrite (text_between_prefix' (dotc :: d :: ds) K); [reflexivity|]. cbn [app]. reflexivity.
 Qed.
 
-(* ["literal"] *)
+(* ["literal"] and [`literal`] *)
+Definition quoted_body (q : cell) (cs : list cell) (q' : cell) : Prop :=
+  (crune q = 34%Z /\ crune q' = 34%Z /\ Forall not_dq cs) \/ (crune q = 96%Z /\ crune q' = 96%Z /\ Forall not_bq cs).
+Lemma quoted_body_spec q cs q' k lit : quoted_body q cs q' -> unquote (cells_str (q :: app cs [q'])) = Some lit ->
+  spec (PRef "StringLiteral") (q :: app cs (q' :: k)) (VStr lit) k.
+Proof.
+  intros [[Hq [Hq' Hcs]]|[Hq [Hq' Hcs]]] Hu; [exact (string_literal_spec q cs q' k lit Hq Hq' Hcs Hu)| exact (raw_literal_spec q cs q' k lit Hq Hq' Hcs Hu)].
+Qed.
+Lemma quoted_body_head q cs q' : quoted_body q cs q' -> class_match cls_ws (crune q) = false.
+Proof. intros [[Hq _]|[Hq _]]; rewrite Hq; reflexivity. Qed.
+
 Lemma seg_idx_spec lb w1 q cs q' w2 rb lit K :
   crune lb = 91%Z -> crune rb = 93%Z -> Forall is_ws w1 -> Forall is_ws w2 ->
-  crune q = 34%Z -> crune q' = 34%Z -> Forall not_dq cs -> unquote (cells_str (q :: app cs [q'])) = Some lit ->
+  quoted_body q cs q' -> unquote (cells_str (q :: app cs [q'])) = Some lit ->
   spec (PRef "SelectorOrIndex") (lb :: app w1 (q :: app cs (q' :: app w2 (rb :: K)))) (VStr lit) K.
 Proof.
-  intros Hlb Hrb Hw1 Hw2 Hq Hq' Hcs Hu.
+  intros Hlb Hrb Hw1 Hw2 Hqb Hu.
   eapply ref_ok; [reflexivity|]. cbn [rexpr]. apply spec_j. apply choice_ok.
   apply specc_next.
   { apply faction. apply fseq. apply fseqs_here. refine (fails_f (head_not 46) _ _ (fails_lit 46 []) _). cbn. rewrite Hlb. discriminate. }
@@ -94,8 +104,8 @@ Proof.
     eapply action_ok with (v' := VStr lit).
     + apply seq_ok.
       eapply seqs_cons; [apply (lit_ok [91]%Z [lb] _); cbn; rewrite Hlb; reflexivity|].
-      eapply seqs_cons; [apply (ws_opt_ok w1 _ Hw1); cbn; rewrite Hq; reflexivity|].
-      eapply seqs_cons; [apply lab_ok; apply (string_literal_spec q cs q' _ lit Hq Hq' Hcs Hu)|].
+      eapply seqs_cons; [apply (ws_opt_ok w1 _ Hw1); cbn; exact (quoted_body_head q cs q' Hqb)|].
+      eapply seqs_cons; [apply lab_ok; apply (quoted_body_spec q cs q' _ lit Hqb Hu)|].
       eapply seqs_cons; [apply (ws_opt_ok w2 _ Hw2); cbn; rewrite Hrb; reflexivity|].
       eapply seqs_cons; [apply (lit_ok [93]%Z [rb] K); cbn; rewrite Hrb; reflexivity|]. apply seqs_nil.
     + intros G. reflexivity.
@@ -114,8 +124,8 @@ Definition seg_ok (sg : seg) : Prop :=
   | SDot c cs => class_match cls_id_head (crune c) = true /\ id_tail_ok cs
   | SNum d ds => is_digit d /\ Forall is_digit ds
   | SIdx lb w1 q cs q' w2 rb lit =>
-      crune lb = 91%Z /\ crune rb = 93%Z /\ Forall is_ws w1 /\ Forall is_ws w2 /\ crune q = 34%Z /\ crune q' = 34%Z /\
-      Forall not_dq cs /\ unquote (cells_str (q :: app cs [q'])) = Some lit
+      crune lb = 91%Z /\ crune rb = 93%Z /\ Forall is_ws w1 /\ Forall is_ws w2 /\ quoted_body q cs q' /\
+      unquote (cells_str (q :: app cs [q'])) = Some lit
   end.
 Definition seg_cells (sg : seg) (K : list cell) : list cell :=
   match sg with
@@ -134,7 +144,7 @@ Proof.
   intros Hok [Hi Hd]. destruct sg as [c cs|d ds|lb w1 q cs q' w2 rb lit]; cbn [seg_ok seg_cells seg_part] in *.
   - destruct Hok as [Hh Ht]. apply seg_dot_spec; assumption.
   - destruct Hok as [H1 H2]. apply seg_num_spec; assumption.
-  - destruct Hok as [H1 [H2 [H3 [H4 [H5 [H6 [H7 H8]]]]]]]. apply seg_idx_spec; assumption.
+  - destruct Hok as [H1 [H2 [H3 [H4 [H5 H6]]]]]. apply seg_idx_spec; assumption.
 Qed.
 
 Lemma seg_stop_head sg K : seg_ok sg -> seg_stop (seg_cells sg K).
@@ -210,10 +220,27 @@ Example three_spellings :
   seg_part (SNum (ac "0") []) = "0" /\ seg_ok (SNum (ac "0") []) /\
   seg_part (SIdx (ac "[") [] (ac """") [ac "0"] (ac """") [sp] (ac "]") "0") = "0" /\
   seg_ok (SIdx (ac "[") [] (ac """") [ac "0"] (ac """") [sp] (ac "]") "0") /\
-  seg_part (SDot (ac "b") [ac "0"]) = "b0" /\ seg_ok (SDot (ac "b") [ac "0"]).
+  seg_part (SDot (ac "b") [ac "0"]) = "b0" /\ seg_ok (SDot (ac "b") [ac "0"]) /\
+  seg_part (SIdx (ac "[") [] (ac "`") [ac "0"] (ac "`") [sp] (ac "]") "0") = "0" /\
+  seg_ok (SIdx (ac "[") [] (ac "`") [ac "0"] (ac "`") [sp] (ac "]") "0").
 Proof.
-  repeat split; try reflexivity; try (constructor; fail).
-  - constructor; [reflexivity| constructor].
-  - constructor; [cbn; discriminate| constructor].
-  - constructor; [reflexivity| constructor].
+  assert (Hsp : Forall is_ws [sp]) by (constructor; [reflexivity| constructor]).
+  split; [reflexivity|]. split; [split; [reflexivity| constructor]|]. split; [reflexivity|].
+  split.
+  { cbn [seg_ok]. split; [reflexivity|]. split; [reflexivity|]. split; [constructor|]. split; [exact Hsp|].
+    split; [|reflexivity]. left. split; [reflexivity|]. split; [reflexivity|]. constructor; [cbn; discriminate| constructor]. }
+  split; [reflexivity|]. split.
+  { cbn [seg_ok]. split; [reflexivity|]. constructor; [reflexivity| constructor]. }
+  split; [reflexivity|].
+  cbn [seg_ok]. split; [reflexivity|]. split; [reflexivity|]. split; [constructor|]. split; [exact Hsp|].
+  split; [|reflexivity]. right. split; [reflexivity|]. split; [reflexivity|]. constructor; [cbn; discriminate| constructor].
+Qed.
+
+(* a carriage return inside back quotes is not part of the part (Go's raw-string rule): a[`b<CR>`] names the part b *)
+Example raw_part_drops_cr :
+  seg_ok (SIdx (ac "[") [] (ac "`") [ac "b"; ac (ascii_of_nat 13)] (ac "`") [] (ac "]") "b").
+Proof.
+  cbn [seg_ok]. split; [reflexivity|]. split; [reflexivity|]. split; [constructor|]. split; [constructor|].
+  split; [|vm_compute; reflexivity]. right. split; [reflexivity|]. split; [reflexivity|].
+  constructor; [cbn; discriminate|]. constructor; [cbn; discriminate| constructor].
 Qed.
